@@ -255,7 +255,7 @@ func (t *tcpPacketConn) readFromContext(ctx context.Context, b []byte) (int, net
 		return 0, pkt.RAddr, pkt.Err
 	}
 
-	if cap(b) < len(pkt.Data) {
+	if len(b) < len(pkt.Data) {
 		return 0, pkt.RAddr, io.ErrShortBuffer
 	}
 
